@@ -6,7 +6,7 @@ from ..run import Drive, sends_from_log
 
 PROP = 'C15'
 LEVEL = 'exploration'
-BUDGET = {'quick': 2400, 'thorough': 48000}
+BUDGET = {'quick': 7200, 'thorough': 96000}
 RULE = ('cases = 2-4 interpreters over small generated charts whose fragments send 0-2 events '
         '(with parameters and delays) and notify, plus 2 recording callables, driven by an '
         'operation list over bind(i->j), bind(i->callable), detach, queue, advance, step '
